@@ -110,7 +110,8 @@ func randSpelling(r *rand.Rand) Spelling {
 }
 
 func allFormats() []Fmt4 {
-	return []Fmt4{fmtDefault, fmtCustom, fmtEmpty, fmtMulti, fmtLookalike, fmtPercent}
+	return []Fmt4{fmtDefault, fmtCustom, fmtEmpty, fmtMulti, fmtLookalike, fmtPercent,
+		{"|", "| ", "|", "| "}, {"", " ", "", "  "}, {"ab", "abab", "ba", "ab"}, {"+", "+ ", "+-", "+ +"}, {"x\ny", "\n", "\t", " \n "}}
 }
 
 // forestsUpTo enumerates every ordered forest with 1..n nodes over the alphabet.
